@@ -93,6 +93,11 @@ fn take_elem<E: Elem>(e: E) -> (u32, u32) {
 
 fn consume_iter<E: Elem, I: DoubleEndedIterator<Item = E>>(mut it: I, how: Consume) -> Ret {
     let mut out = Vec::new();
+    {
+        let (lo, hi) = it.size_hint();
+        out.push((100, lo as u32));
+        out.push((101, hi.map(|h| h as u32).unwrap_or(u32::MAX)));
+    }
     match how {
         Consume::All => {
             while let Some(e) = it.next() {
@@ -132,6 +137,15 @@ fn consume_iter<E: Elem, I: DoubleEndedIterator<Item = E>>(mut it: I, how: Consu
             }
             std::mem::forget(it);
             return Ret::Elems(out);
+        }
+    }
+    {
+        // size hint of what is left, and (after a full traversal) the iterator stays exhausted
+        let (lo, hi) = it.size_hint();
+        out.push((102, lo as u32));
+        out.push((103, hi.map(|h| h as u32).unwrap_or(u32::MAX)));
+        if matches!(how, Consume::All | Consume::AllBack) {
+            out.push((104, it.next().is_none() as u32));
         }
     }
     drop(it);
@@ -960,6 +974,9 @@ impl<A: Elem, B: Elem> VecPair<A, B> {
 
 fn consume_forward<E: Elem, I: Iterator<Item = E>>(mut it: I, how: Consume) -> Ret {
     let mut out = Vec::new();
+    // the reference for DrainFilter is computed by hand, so its size hint is judged against the
+    // Iterator contract instead: lower bound <= what is actually yielded <= upper bound
+    let h0 = it.size_hint();
     match how {
         Consume::All | Consume::AllBack => {
             while let Some(e) = it.next() {
@@ -988,6 +1005,14 @@ fn consume_forward<E: Elem, I: Iterator<Item = E>>(mut it: I, how: Consume) -> R
             }
             std::mem::forget(it);
             return Ret::Elems(out);
+        }
+    }
+    if matches!(how, Consume::All | Consume::AllBack) {
+        let n = out.len();
+        let h1 = it.size_hint();
+        let fused = it.next().is_none();
+        if h0.0 > n || h0.1.map_or(false, |h| h < n) || h1.0 != 0 || !fused {
+            out.push((199, 0));
         }
     }
     drop(it);
